@@ -13,6 +13,25 @@ CHECKS = {
          'Trusted: z3; the reference predicates written from the docstrings; variable names as reported by the formula (alignment is C11). '
          'Structural parameters are concrete (exhaustive inside the box), the assignment is symbolic.',
          'DESIGN.md section 3 C01'),
+ 'C02': ('SMT equivalence (z3) of each generated graph formula with the documented graph property over all assignments; sat verdict and model count vs independently enumerated witnesses; exists-projection for dominating set',
+         'Bounded symbolic verification: for every labelled simple graph of the box (all graphs on <=4 vertices quick, <=5 thinned thorough) and every parameter, one z3 unsat verdict per instance shows the formula '
+         'agrees with the documented property on all assignments; satisfiability <=> property and #models = #witnesses follow and are cross-checked.',
+         'Trusted: z3 (incl. quantifier elimination over <=15 Booleans for the dominating-set projection), the reference predicates, variable names reported by the formula. Outside: larger graphs.',
+         'DESIGN.md section 3 C02'),
+ 'C03': ('per-axiom-schema entailment with z3 (unsat core claim + none-extra + none-missing) for contradictions; SMT equivalence for planted/Ramsey-type formulas; RNG graph draw replaced by an exhaustive stub',
+         'Bounded symbolic verification: for every instance of the box z3 decides unsatisfiability over all assignments and that the clause set is exactly the documented axiom schemas; '
+         'Pitfall is decided for every regular graph the generator could draw at the stated sizes.',
+         'Trusted: z3, schemas transcribed from docstrings/help texts, stub contract of networkx.random_regular_graph. Pipe/tail gadgets of Pitfall only through the global unsat verdict.',
+         'DESIGN.md section 3 C03'),
+ 'C05': ('SMT equivalence (z3): Enc(T(F))(y) xor Enc(F)[x := gadget(y)] unsat for every small CNF F and transformation T',
+         'Bounded symbolic verification over an exhaustive set of small input CNFs (all shapes incl. empty clause, repeated/opposite literals, unused variables) and all transformations with arity <=3(4): '
+         'one z3 unsat verdict per pair covers all assignments of the transformed formula.',
+         'Trusted: z3, gadget definitions from the help texts, block layout of new variables. Outside: arity >4, larger inputs.',
+         'DESIGN.md section 3 C05'),
+ 'C08': ('SMT equivalence (z3) between the CNF-class and OPB-class build of every family instance, at library and command-line level',
+         'Bounded symbolic verification: for every point of the C01-C03 boxes and a table of command lines z3 decides that the two renderings have the same models; names and counts compared exactly.',
+         'Trusted: z3 pseudo-Boolean reasoning; reading of OPB rows as documented. Outside: parameters beyond the boxes, unseeded random families.',
+         'DESIGN.md section 3 C08'),
 }
 NA = {}
 
